@@ -27,6 +27,7 @@ EXPLANATION = (
     ' Also evaluated here: the jump-destination scanner rules of C19 (a JUMPDEST the scanner loses is a feasible target that is never explored).'
     ' Also evaluated here (round 4): fork-copy completeness (C20 R20.1) - state shared between sibling paths makes the later sibling skip alternatives.'
     " Round 5: address-alias resolution gives each alternative's address and condition to the same branch (R02.10)."
+    ' Round 7: the insufficient-funds branch is skipped only for a zero value (R02.7).'
 )
 ASSUMPTIONS = [
     "z3 simplify() and is_false()/is_true() are sound",
